@@ -161,6 +161,10 @@ partial def parsePipe (env : Env) : Sexp → Option Obsv
   | .list [.atom "error", e] => e.asNat.map oError
   | .list [.atom "repeat", v] => (parseData v).map oRepeat
   | .list [.atom "start", v] => (parseData v).map oStart
+  -- from_iter.rs / start_with.rs over an endless iterator: `for x in it { if !s.is_subscribed() { break }; s.next(x) }`
+  -- leaves its loop only when the subscriber has gone, so nothing after the loop runs (no complete, no source)
+  | .list [.atom "from_iter_endless", v] => (parseData v).map oRepeat
+  | .list [.atom "start_with_endless", v, _] => (parseData v).map oRepeat
   | .list [.atom "defer", p] => (parsePipe env p).map oDefer
   | .list [.atom "observe_on_d", p] => (parsePipe env p).map oObserveOnD
   | .list [.atom "subscribe_on_d", p] => (parsePipe env p).map oSubscribeOnD
@@ -218,6 +222,7 @@ partial def parsePipe (env : Env) : Sexp → Option Obsv
   | .list [.atom "dematerialize", p] => (parsePipe env p).map (stdOp kDematerialize)
   | .list [.atom "map_to_any", p] => (parsePipe env p).map (stdOp kId)
   | .list [.atom "tap", tag, p] => do some (oTap (← tag.asNat) (← parsePipe env p))
+  | .list [.atom "tap_unsub", tag, k, p] => do some (oTapUnsub (← tag.asNat) (← k.asNat) (← parsePipe env p))
   | .list (.atom "merge" :: p :: ps) => do some (oMerge (← parsePipe env p) (← ps.mapM (parsePipe env)))
   | .list (.atom "concat" :: p :: ps) => do some (oConcat (← parsePipe env p) (← ps.mapM (parsePipe env)))
   | .list (.atom "zip" :: p :: ps) => do some (oZip (← parsePipe env p) (← ps.mapM (parsePipe env)))
@@ -234,6 +239,10 @@ partial def parsePipe (env : Env) : Sexp → Option Obsv
   | .list [.atom "group_by", f, p] => do some (oGroupBy (← parseFn f) (← parsePipe env p))
   | .list [.atom "flat_map", f, p] => do some (oFlatMap (← parseFm env f) (← parsePipe env p))
   | .list [.atom "retry", n, p] => do some (oRetry (← n.asNat) (← parsePipe env p))
+  | .list [.atom "flat_map_u", k, f, p] => do some (oFlatMapU (← k.asNat) (← parseFm env f) (← parsePipe env p))
+  | .list [.atom "retry_when_u", k, f, p] => do some (oRetryWhenU (← k.asNat) (← parseEPred f) (← parsePipe env p))
+  | .list [.atom "on_error_resume_next_u", k, f, p] => do
+      some (oOnErrorResumeNextU (← k.asNat) (← parseRs env f) (← parsePipe env p))
   | .list [.atom "retry_when", f, p] => do some (oRetryWhen (← parseEPred f) (← parsePipe env p))
   | .list [.atom "on_error_resume_next", f, p] => do
       some (oOnErrorResumeNext (← parseRs env f) (← parsePipe env p))
